@@ -288,7 +288,7 @@ def gen_nearmiss(rng):
   """-> (source, description).  half of them are exactly well-typed, the others off by one somewhere"""
   w = rng.choice([1, 2, 3, 4, 7, 8, 9, 16, 31, 32, 33, 48, 49, 50, 63, 64, 65, 100])
   d = rng.choice([0, 0, 1, -1]) if w > 1 else rng.choice([0, 1])
-  shape = rng.randrange(18)
+  shape = rng.randrange(21)
   wa, wb, wo = w, w + d, w
   lit_k = rng.choice([w - 1, w, w + 1, w, w])
   lit = rng.choice([(1 << lit_k) - 1, 1 << lit_k, (1 << lit_k) + 1]) if lit_k >= 0 else 1
@@ -331,6 +331,23 @@ def gen_nearmiss(rng):
     h = 1 << (w - 1)
     v = rng.choice([h - 1, h, h + 1, h + 1, (1 << w) - 1, 1, 2]) if w > 1 else rng.choice([1, 2])
     stmt = rng.choice([f"s.o @= -{v}", f"s.o @= -({v})", f"s.o @= ~{v - 1}"]); wb = w
+  elif shape in (18, 19, 20):
+    # explicit BitsK( x ) casts of values whose own width is only inferred: a loop variable, an int temporary (K is the
+    # inferred width or more, so the cast itself is always legal), or a signal; the cast result is K bits wide, full stop
+    n = rng.choice([2, 3, 5, 6, 8, 9, 16, 17])
+    kmin = max(1, (n - 1).bit_length())
+    K = kmin + rng.choice([0, 0, 0, 1])
+    w = wa = wo = wb = max(1, K + rng.choice([0, 0, 1, -1, 2, 5]))
+    if shape == 18:
+      body = rng.choice([f"s.o @= s.a {op} Bits{K}(i)", f"s.o @= Bits{K}(i) {op} s.a", f"s.o1 @= s.a {cmp_} Bits{K}(i)", f"s.o @= Bits{K}(i)"])
+      stmt = f"for i in range({n}):\n        {body}"
+    elif shape == 19:
+      body = rng.choice([f"s.o @= s.a {op} Bits{K}(x)", f"s.o1 @= Bits{K}(x) {cmp_} s.a", f"s.o @= Bits{K}(x)"])
+      stmt = f"x = {n - 1}\n      {body}"
+    else:
+      wb = K
+      stmt = rng.choice([f"s.o @= s.a {op} Bits{K}(s.b)", f"s.o1 @= Bits{K}(s.b) {cmp_} s.a", f"s.o @= Bits{K}(s.b)"])
+    d = w - K
   else: stmt = f"s.o @= concat(s.a[0:{max(1, w // 2)}], s.b[0:{w - max(1, w // 2) if w > 1 else 1}])"
   return NM_TMPL.format(wa=wa, wb=max(1, wb), wo=wo, stmt=stmt), {"shape": shape, "w": w, "delta": d, "literal": lit, "stmt": stmt}
 
